@@ -924,9 +924,7 @@ func ruleTruncateGap(w *core.World, r *core.Report) {
 			}
 		}
 	}
-	r.Check(keepNew && dropRdb, "TruncateGap/gap-branch", gapIf.Pos(), "on a gap the data set must keep only the newest contiguous run (kept=%v) and must stop indexing the snapshot, which lies before the gap (dropped=%v)", keepNew, dropRdb)
-	// R08.6 joint
-	r.Rule("R08.6", "", 1)
+	// R08.6 joint (computed first: a joint test after the loop also disposes of a snapshot left indexed by the gap branch)
 	joint := false
 	for _, in := range core.Instrs(f) {
 		b, ok := in.(*ssa.BinOp)
@@ -953,6 +951,9 @@ func ruleTruncateGap(w *core.World, r *core.Report) {
 			}
 		}
 	}
+	r.Rule("R08.3", "", 3)
+	r.Check(keepNew && (dropRdb || joint), "TruncateGap/gap-branch", gapIf.Pos(), "on a gap the data set must keep only the newest contiguous run (kept=%v) and must stop indexing the snapshot that lies before the gap, either in the gap branch (%v) or through the snapshot/log joint test that follows (%v)", keepNew, dropRdb, joint)
+	r.Rule("R08.6", "", 1)
 	r.Check(joint, "TruncateGap/snapshot-log-joint", f.Pos(), "when a directory is opened the snapshot's offset must be compared with the first kept log segment and the snapshot dropped on inequality; otherwise the reported range spans bytes that are not there")
 }
 
